@@ -7,7 +7,7 @@ mkdir -p $d
 git -C $wt diff -- jobshoplab > $d/patch.diff
 cp $wt/demo_break.py $d/ 2>/dev/null
 (cd $wt && /venv/bin/python demo_break.py >/dev/null 2>&1; echo "demo with change: exit $?")
-(cd $wt && git stash -q && /venv/bin/python demo_break.py >/dev/null 2>&1; echo "demo without change: exit $?"; git stash pop -q)
+(cd $wt && git checkout -- jobshoplab && /venv/bin/python demo_break.py >/dev/null 2>&1; echo "demo without change: exit $?"; git apply $d/patch.diff)
 git -C /repo apply $d/patch.diff || exit 3
 for p in "$@"; do
   echo "== check $p"
